@@ -16,12 +16,15 @@ ANGLE = "pymeeus.Angle:Angle"
 TOL = 1e-10
 
 
-def angle(ctx, name="a"):
-    v = ctx.dyadic(name, -360, 360, 30)
+def angle(ctx, name="a", bits=30):
+    """any Angle: value a dyadic rational in (-360, 360); its comparison tolerance is whatever an earlier set_tolerance()
+    left there (the splitting and printing functions must not depend on it)"""
+    v = ctx.dyadic(name, -360, 360, bits)
     ctx.assume(and_(v > -360, v < 360))
     a = ctx.obj("Angle")
     ctx.setfield(a, "_deg", v)
-    ctx.setfield(a, "_tol", TOL)
+    tol = ctx.dyadic(name + "_tol", 0, 1, 40)
+    ctx.setfield(a, "_tol", tol)
     return a, v
 
 
@@ -60,7 +63,7 @@ def h_canary(ctx):
 
 
 # ---- printing: template + arguments
-NDEC = [-1, 0, 1, 2, 3, 6, 9, 12]
+NDEC = [-1, 0, 1, 2, 3, 6, 9, 11, 12]
 
 
 def parse(s):
@@ -78,7 +81,8 @@ def parse(s):
 @P.harness("dms_str/ra_str", cases=[dict(kind=k, fancy=f, n_dec=n) for k in ("dms", "ra") for f in (1, 0) for n in NDEC],
            functions=[ANGLE + ".dms_str", ANGLE + ".ra_str"], timeout=60, crosscheck=6)
 def h_str(ctx, kind, fancy, n_dec):
-    a, v = angle(ctx)
+    # 2^-30 deg is 3.4e-6 arcsec: fine enough to sit on every rounding boundary down to 1e-9 arcsec only with more bits
+    a, v = angle(ctx, bits=30 if n_dec < 6 else 62)
     value = v if kind == "dms" else v / 15
     top = 360 if kind == "dms" else 24
     out = ctx.method(a, "dms_str" if kind == "dms" else "ra_str", bool(fancy), n_dec)
@@ -88,7 +92,7 @@ def h_str(ctx, kind, fancy, n_dec):
         ctx.vc("no 60 in minutes or seconds", abs(fields[1]) < 60 and abs(fields[2]) < 60)
         ctx.vc("sign at most once", nneg <= 1)
         d = (val - value) % top
-        ctx.vc("reads back to the rounded value (mod %d)" % top, min(d, top - d) <= float(half) + 1e-9)
+        ctx.vc("reads back to the rounded value (mod %d)" % top, min(d, top - d) <= float(half) + 1e-12)
         return
     tpl, args = (out, ()) if isinstance(out, str) else (out.template, out.args)
     # the printed fields, independent of how the code splits them between template text and arguments
@@ -189,7 +193,7 @@ def b_strings(rng, tier):
                         continue
                     half = (0.5 * 10.0 ** (-nd) / 3600.0) if nd >= 0 else 0.0
                     d = (val - value) % top
-                    ok = abs(fields[1]) < 60 and abs(fields[2]) < 60 and nneg <= 1 and min(d, top - d) <= half + 1e-9
+                    ok = abs(fields[1]) < 60 and abs(fields[2]) < 60 and nneg <= 1 and min(d, top - d) <= half + 1e-12
                     yield ((x, nd, fancy, ra), ok, s)
         t = a.dms_tuple()
         r = a.ra_tuple()
@@ -199,3 +203,6 @@ def b_strings(rng, tier):
               and abs(r[3] * (r[0] + r[1] / 60.0 + r[2] / 3600.0) - a() / 15.0) < 1e-9 / 15
               and isinstance(t[0], int) and isinstance(t[1], int))
         yield ((x, "tuple"), ok, (t, r))
+
+
+P.frame_check()
